@@ -867,7 +867,7 @@ class MustFacts:
 def forward_states(func, init, transfer, refine=None, cap=256, switch_refine=None):
     """Disjunctive forward abstract interpretation.
     init: hashable state. transfer(state, block, idx, el) -> iterable of states.
-    refine(state, cond_tree, polarity) -> state or None (infeasible).
+    refine(state, cond_tree, polarity, block) -> state or None (infeasible).
     switch_refine(state, switch_tree, case_vals|'default'|'implicit-default', all_case_vals) -> state or None
     Returns dict: (block, idx) -> set(states before element idx); idx == len(els) is the terminator point.
     """
@@ -910,7 +910,7 @@ def forward_states(func, init, transfer, refine=None, cap=256, switch_refine=Non
                 for s2, pol in ((ts, True), (fs, False)):
                     if s2 is None:
                         continue
-                    n = refine(c, cond, pol) if refine else c
+                    n = refine(c, cond, pol, blk) if refine else c
                     if n is not None:
                         work.append((s2, n))
         elif blk.term and blk.term["cls"] == "SwitchStmt":
